@@ -146,8 +146,8 @@ fn kvi(k: &str, v: i64) -> (String, Val) {
 pub(crate) fn ns_open(node: &str, actor: ractor::ActorId, label: &str, is_server: bool) {
     ractor::verif::emit_kv("ns.open", actor.pid(), i64::from(is_server), vec![kvs("node", node), kvs("label", label)]);
 }
-pub(crate) fn ns_update(node: &str, actor: ractor::ActorId, nonce: u64, known: bool) {
-    ractor::verif::emit_kv("ns.update", actor.pid(), i64::from(known), vec![kvs("node", node), kvi("nonce", nonce as i64)]);
+pub(crate) fn ns_update(node: &str, actor: ractor::ActorId, peer: &str, nonce: u64, known: bool) {
+    ractor::verif::emit_kv("ns.update", actor.pid(), i64::from(known), vec![kvs("node", node), kvs("peer", peer), kvi("nonce", nonce as i64)]);
 }
 pub(crate) fn ns_check(node: &str, peer: &str, nonce: u64, reply: &crate::node::SessionCheckReply) {
     let r = match reply {
